@@ -30,6 +30,8 @@ type Program struct {
 
 	globalErr map[*ssa.Global]bool
 	expanding map[*ssa.Function]bool // new helpers whose results are being expanded (recursion guard)
+	canon     map[*ssa.Function]string // renamed functions: current function -> key it had on the reference tree
+	Renamed   []string                 // "old key -> new key", for the evidence
 	funcByKey map[string]*ssa.Function
 	origins   map[*ssa.Function]*Origins
 	NFiles    int
@@ -177,6 +179,7 @@ func Load(opt LoadOptions) (*Program, error) {
 		}
 		return p.Funcs[i].String() < p.Funcs[j].String()
 	})
+	p.detectRenames()
 	for _, f := range p.Funcs {
 		p.funcByKey[p.FuncKey(f)] = f
 	}
@@ -201,6 +204,9 @@ func (p *Program) Rel(path string) string {
 func (p *Program) FuncKey(f *ssa.Function) string {
 	if f == nil {
 		return "<nil>"
+	}
+	if k, ok := p.canon[f]; ok {
+		return k
 	}
 	if f.Parent() != nil {
 		// anonymous function: parent key + $n
